@@ -153,9 +153,15 @@ theorem updateLoop_inv (now : Int) (spec document nowV : Val) (multi : Bool) (c0
               · exact pyEqOrdered_pyEq _ _ hun
               · exact hun
             have hc' := setDoc_entU c0 c key cur new hc hl hnewTop (Or.inl hA)
-            split at h
-            · exact ih _ _ _ _ _ h hc' hkeys
-            · cases h; exact ⟨hc', hkeys⟩
+            -- the unique indexes are checked on the "unchanged" branch as well
+            cases hu : ensureUniques now (c.setDoc key new) new with
+            | error e => simp only [hu] at h; cases h; exact ⟨hc, hk⟩
+            | ok c2 =>
+              simp only [hu] at h
+              have hs2 := ensureUniques_sub _ _ _ _ hu
+              split at h
+              · exact ih _ _ _ _ _ h (all_sub hs2 hc') (KS.of_sub hs2 hkeys)
+              · cases h; exact ⟨all_sub hs2 hc', KS.of_sub hs2 hkeys⟩
           · rw [if_neg hun] at h
             simp only at h
             change (if (!pyEqOpt (idOf cur) (idOf new)) = true then _ else _) = _ at h
